@@ -14,3 +14,6 @@ import Ymq.Props.C04Shape
 #print axioms Ymq.C04Shape.mpqs_mt_abort_bounded
 #print axioms Ymq.C04Shape.siqs_st_abort_bounded
 #print axioms Ymq.C04Shape.mpqs_st_abort_bounded
+#print axioms Ymq.C04Shape.source_ecm_shape_ok
+#print axioms Ymq.C04Shape.ecm_abort_bounded
+#print axioms Ymq.C04Shape.ecm_unit_length
